@@ -97,12 +97,13 @@ Print Assumptions C07_example.
 (* ---- on the BYTES of the data file.  read_file (Model/LineReader.v) is the line reader of parse():
    bufio.ScanLines tokens (split at LF, one trailing CR dropped), leading BLANKS removed - nothing
    else, in particular no TAB in front and no byte at the end of the line -, lines shorter than two
-   bytes and lines starting with '#' skipped; conv is applied to exactly these lines.
+   bytes and lines starting with '#' skipped; conv is applied to exactly these lines; reader_fails: the
+   scanner's token limit, see below.
    file_records conv accum feature data = records of (read_file data). *)
 From DnsV Require Import Model.LineReader Proofs.LineReader.
 
 Theorem C07_file_builder_lossless : forall conv accum feature sort, sort_ok sort -> forall min_size nb data stream,
-  1 <= min_size -> (1 <= nb)%nat -> feature <> [] -> accepted bytes conv (read_file data) = true ->
+  reader_fails data = false -> 1 <= min_size -> (1 <= nb)%nat -> feature <> [] -> accepted bytes conv (read_file data) = true ->
   kvs_ok (file_records conv accum feature data) -> Permutation stream (file_records conv accum feature data) ->
   exists db, compile_file_builder conv sort min_size nb data stream = Ok db /\ store_ok db /\
              forall k, Permutation (vals db k) (vals_of k (file_records conv accum feature data)).
@@ -110,7 +111,7 @@ Proof. exact file_builder_lossless. Qed.
 Print Assumptions C07_file_builder_lossless.
 
 Theorem C07_file_batches_lossless : forall conv accum feature sort, sort_ok sort -> forall bs data stream order,
-  accepted bytes conv (read_file data) = true -> kvs_ok (file_records conv accum feature data) ->
+  reader_fails data = false -> accepted bytes conv (read_file data) = true -> kvs_ok (file_records conv accum feature data) ->
   Permutation stream (file_records conv accum feature data) -> Permutation order (batches bs stream) ->
   exists db, compile_file_batches conv sort data order = Ok db /\ store_ok db /\
              forall k, Permutation (vals db k) (vals_of k (file_records conv accum feature data)).
@@ -118,7 +119,7 @@ Proof. exact file_batches_lossless. Qed.
 Print Assumptions C07_file_batches_lossless.
 
 Theorem C07_file_cdb_lossless : forall conv accum feature data stream,
-  accepted bytes conv (read_file data) = true -> Permutation stream (file_records conv accum feature data) ->
+  reader_fails data = false -> accepted bytes conv (read_file data) = true -> Permutation stream (file_records conv accum feature data) ->
   compile_file_cdb conv data stream = Ok stream /\
   forall k, Permutation (vals_of k stream) (vals_of k (file_records conv accum feature data)).
 Proof. exact file_cdb_lossless. Qed.
@@ -133,6 +134,28 @@ Theorem C07_file_reject_is_total : forall conv data raw e,
   (forall stream, exists e', compile_file_cdb conv data stream = Err e').
 Proof. exact file_reject_is_total. Qed.
 Print Assumptions C07_file_reject_is_total.
+
+(* the scanner's token limit (bufio.MaxScanTokenSize = 65536, Go standard library): reader_fails data
+   says some line of data has 65536 bytes or more before its newline (a trailing CR counts, so does a
+   last line without newline).  Then every compiler fails under every setting - nothing is compiled
+   from the lines before it. *)
+Theorem C07_file_reader_error_is_total : forall conv data, reader_fails data = true ->
+  (forall sort min_size nb stream, compile_file_builder conv sort min_size nb data stream = Err E_READER) /\
+  (forall sort order, compile_file_batches conv sort data order = Err E_READER) /\
+  (forall stream, compile_file_cdb conv data stream = Err E_READER).
+Proof. exact file_reader_error_is_total. Qed.
+Print Assumptions C07_file_reader_error_is_total.
+
+(* an over-long line makes the reader fail whatever precedes it (nothing, or any bytes ending in a
+   newline) and whatever follows it; a file of fewer than 65536 bytes never does *)
+Theorem C07_long_line_anywhere_fails : forall pre line post, ~ In 10 line -> max_scan_token_size <= nlen line ->
+  reader_fails (line ++ post) = true /\ reader_fails (pre ++ 10 :: line ++ post) = true.
+Proof. exact long_line_anywhere. Qed.
+Print Assumptions C07_long_line_anywhere_fails.
+
+Theorem C07_short_file_is_read : forall data n, nlen data + n < max_scan_token_size -> reader_overflow data n = false.
+Proof. exact short_file_fits. Qed.
+Print Assumptions C07_short_file_is_read.
 
 (* the reader removes leading blanks and nothing else; a line not starting with a blank passes unchanged *)
 Theorem C07_reader_trims_leading_blanks_only : forall l, exists n,
